@@ -201,6 +201,18 @@ theorem removed_idempotent (D : Nat → Nat → α) (r : Nat → α) (m : α) (f
     · obtain ⟨hx, hy, hne, _⟩ := firstMin_mem D res x y hs
       exact absurd hd (not_lt.mpr (hsep x y hx hy hne))
 
+/-- **Nothing to remove**: if no pair is closer than the minimal distance the emulsion is returned unchanged -/
+theorem loop_noop (D : Nat → Nat → α) (r : Nat → α) (m : α) (fuel : Nat) (items : List Nat)
+    (hsep : ∀ a b, a ∈ items → b ∈ items → b ≠ a → m ≤ D a b) :
+    loop D r m fuel items = (items, []) := by
+  cases fuel with
+  | zero => simp [loop]
+  | succ f =>
+    rcases loop_succ D r m f items with ⟨_, h⟩ | ⟨x, y, _, _, h⟩ | ⟨x, y, hs, hd, _⟩
+    · exact h
+    · exact h
+    · obtain ⟨hx, hy, hne, _⟩ := firstMin_mem D items x y hs
+      exact absurd hd (not_lt.mpr (hsep x y hx hy hne))
 /-- nothing is lost: input = survivors + removed (as multisets) -/
 theorem removed_partition (D : Nat → Nat → α) (r : Nat → α) (m : α) (fuel : Nat) (items : List Nat) :
     items.Perm ((loop D r m fuel items).2.map (·.removed) ++ (loop D r m fuel items).1) := by
